@@ -365,10 +365,24 @@ class Interp:
                         return False
                     if r is not True:
                         conds.append(r)
+                for f in (pat.get("fields") or []) if k == "Struct" else []:
+                    r = self.test(f["p"], ("payload", t, path, f["f"]))
+                    if r is False:
+                        return False
+                    if r is not True:
+                        conds.append(r)
                 return True if not conds else ("and", tuple(conds))
             conds = [("is", t, path)]
             for i, q in enumerate(pat.get("pats") or []):
                 r = self.test(q, payload(t, path, i))
+                if r is False:
+                    return False
+                if r is not True:
+                    conds.append(r)
+            # struct-like variant (`Kind::Canonical { serialization: Serialization::DoesNotSerialize }`): the named
+            # fields' sub-patterns are tests too (payload by field name, as `bind` addresses them)
+            for f in (pat.get("fields") or []) if k == "Struct" else []:
+                r = self.test(f["p"], ("payload", t, path, f["f"]))
                 if r is False:
                     return False
                 if r is not True:
@@ -1305,9 +1319,17 @@ class Interp:
             v = ev(0)
             if is_var(v, SOME) or is_var(v, OK):
                 return v[2][0]
-            d = ev(1) if len(arg_nodes) > 1 else ("default", n.get("ty", ""))
             if is_var(v, NONE) or is_var(v, ERR):
-                return d
+                return ev(1) if len(arg_nodes) > 1 else ("default", n.get("ty", ""))
+            look = v
+            while isinstance(look, tuple) and look and look[0] == "app" and isinstance(look[1], str) and look[1].endswith(("::copied", "::cloned")) and len(look[2]) == 1:
+                look = look[2][0]
+            if len(arg_nodes) > 1 and isinstance(look, tuple) and look and look[0] == "app" and isinstance(look[1], str) and re.search(r"Map<.*>::get$|Map::<K, V(, S)?(, A)?>::get$", look[1]):
+                # `map.get(k).copied().unwrap_or(d)` is `if let Some(x) = map.get(k) { *x } else { d }`: the same two-way
+                # decision on the lookup, so that both spellings give the same paths
+                c_some = ("is", look, SOME)
+                return self.branches([(c_some, lambda e2: payload(look, SOME, 0)), (("not", c_some), lambda e2: self.eval(arg_nodes[1], e2))], env, core.loc(n))
+            d = ev(1) if len(arg_nodes) > 1 else ("default", n.get("ty", ""))
             return ("unwrap_or", v, d)
         if re.search(r"(Option::<T>::unwrap|Option::<T>::expect|Result::<T, E>::unwrap|Result::<T, E>::expect)$", g):
             v = ev(0)
